@@ -31,6 +31,8 @@ var replayDrivers = map[string]replayDriver{
 	"codec-encode": {"pkg/entities", "entities/codec_replay_test.go", "TestVerifReplayCodec", "encode", 120},
 	"codec-decode": {"pkg/entities", "entities/codec_replay_test.go", "TestVerifReplayCodec", "decode", 120},
 	"session":      {"pkg/exporter", "exporter/session_replay_test.go", "TestVerifReplaySession", "", 120},
+	"packet":       {"pkg/collector", "collector/packet_replay_test.go", "TestVerifReplayPacket", "", 120},
+	"registry-enum": {"pkg/registry", "registry/enum_replay_test.go", "TestVerifEnumRegistry", "", 120},
 }
 
 var valueLine = regexp.MustCompile(`\(\s*([^\s()]+)\s+(\(-\s*\d+\)|-?\d+|true|false)\s*\)`)
@@ -43,6 +45,22 @@ func parseModelValues(out string) map[string]string {
 		m[mm[1]] = v
 	}
 	return m
+}
+
+// runEnumeration runs an enumeration driver (a finite side condition checked entry by entry on the real code).
+// It returns (ok, detail): ok=false when an entry violates the condition or the driver could not run.
+func runEnumeration(vd, repo, name string) (bool, map[string]interface{}) {
+	info := map[string]interface{}{}
+	u := &UnitResult{Spec: &FuncSpec{Replay: name}}
+	o := &Oblig{Status: "enum"}
+	reproduced := tryReplay(vd, repo, "", u, o, info)
+	if reproduced {
+		return false, info
+	}
+	if _, ran := info["replay_result"]; !ran {
+		return false, info
+	}
+	return true, info
 }
 
 // tryReplay attempts to reproduce the failure of obligation o on the real code.
